@@ -553,3 +553,117 @@ func isGradientAt(f *types.Func) bool {
 	b, ok := sig.Params().At(0).Type().Underlying().(*types.Basic)
 	return ok && b.Kind() == types.Float64
 }
+
+// E12ColorSpaceOnce: a paint is converted to the rasterizer's linear working space exactly once.
+func E12ColorSpaceOnce(c *core.Ctx, r *core.Report) {
+	r.Rule("E12.colorspace-once", "the rasterizer blends in linear space: colours and patterns from the style are in the output colour space and are converted once — ColorSpace.ToLinear on a colour, SetColorSpace on a gradient or pattern (which converts the colours it holds) — and converted back once in Close. In the rasterizer package no value derived from the result of a SetColorSpace call (through type assertions, field selections and assignments, also into style.Fill/style.Stroke) is passed to ToLinear or to SetColorSpace again: a second conversion darkens every colour channel that is neither 0 nor 255")
+	p := c.MustPkg("renderers/rasterizer")
+	info := p.TypesInfo
+	n := 0
+	for _, fd := range core.AllFuncDecls(p) {
+		if fd.Body == nil {
+			continue
+		}
+		fname := "rasterizer." + core.FuncName(fd)
+		// converted: locations (printed l-values and objects) holding values derived from SetColorSpace
+		convObj := map[types.Object]bool{}
+		convLoc := map[string]token.Pos{}
+		isSetCS := func(e ast.Expr) bool {
+			call, ok := core.Unparen(e).(*ast.CallExpr)
+			if !ok {
+				return false
+			}
+			se, ok := call.Fun.(*ast.SelectorExpr)
+			return ok && se.Sel.Name == "SetColorSpace"
+		}
+		var derived func(e ast.Expr, at token.Pos) bool
+		derived = func(e ast.Expr, at token.Pos) bool {
+			e = core.Unparen(e)
+			if isSetCS(e) {
+				return true
+			}
+			switch x := e.(type) {
+			case *ast.Ident:
+				return convObj[core.ObjOf(info, x)]
+			case *ast.SelectorExpr:
+				if pos, ok := convLoc[types.ExprString(x)]; ok && pos < at {
+					return true
+				}
+				return derived(x.X, at)
+			case *ast.TypeAssertExpr:
+				return derived(x.X, at)
+			case *ast.StarExpr:
+				return derived(x.X, at)
+			case *ast.IndexExpr:
+				return derived(x.X, at)
+			}
+			return false
+		}
+		for round := 0; round < 4; round++ {
+			ast.Inspect(fd.Body, func(m ast.Node) bool {
+				as, ok := m.(*ast.AssignStmt)
+				if !ok {
+					return true
+				}
+				for i, l := range as.Lhs {
+					var rh ast.Expr
+					if len(as.Lhs) == len(as.Rhs) {
+						rh = as.Rhs[i]
+					} else if len(as.Rhs) == 1 && i == 0 {
+						rh = as.Rhs[0] // v, ok := x.(T)
+					}
+					if rh == nil || !derived(rh, as.Pos()) {
+						continue
+					}
+					switch lv := core.Unparen(l).(type) {
+					case *ast.Ident:
+						if lv.Name != "_" {
+							convObj[core.ObjOf(info, lv)] = true
+						}
+					case *ast.SelectorExpr:
+						if _, seen := convLoc[types.ExprString(lv)]; !seen {
+							convLoc[types.ExprString(lv)] = as.End()
+						}
+					}
+				}
+				return true
+			})
+		}
+		ord := 0
+		ast.Inspect(fd.Body, func(m ast.Node) bool {
+			call, ok := m.(*ast.CallExpr)
+			if !ok {
+				return true
+			}
+			se, ok := call.Fun.(*ast.SelectorExpr)
+			if !ok {
+				return true
+			}
+			var subject ast.Expr
+			switch se.Sel.Name {
+			case "ToLinear":
+				if len(call.Args) == 1 {
+					subject = call.Args[0]
+				}
+			case "SetColorSpace":
+				subject = se.X
+			default:
+				return true
+			}
+			if subject == nil {
+				return true
+			}
+			n++
+			ord++
+			key := fmt.Sprintf("%s|%s #%d converts a value that is still in the output colour space", fname, se.Sel.Name, ord)
+			if derived(subject, call.Pos()) {
+				r.Fail("E12.colorspace-once", key, c.Pos(call.Pos()), fmt.Sprintf("`%s` is derived from the result of a SetColorSpace call, which has already been converted to the working space, and is converted again by %s", types.ExprString(subject), se.Sel.Name))
+			} else {
+				r.OK("E12.colorspace-once", key, c.Pos(call.Pos()), "")
+			}
+			return true
+		})
+	}
+	r.Count("E12.colorspace-conversions", n)
+	r.Floor("E12.colorspace-conversions", 6)
+}
